@@ -176,7 +176,7 @@ CHECKS = [
      "design_ref": "DESIGN.md 4/C23"},
     {"property_id": "C07", "engine": "A", "category": "other", "technique": "symbolic execution of the real nifty.cl Field/AnyArray API over bounded operation histories: constructor, handle derivations and mutation attempts are z3 integers concretised by solver-decided forking, field entries and written values are z3 reals; z3 refutes 'entries differ from those given at construction' after every step for ALL values; counterexamples replayed on float64 arrays",
      "note": "Bounds: 3 entries, 1 round with a derivation chain <= 1 (quick); chain <= 2 and 2 rounds (thorough). Re-enabling flags.writeable on the source array and memory aliased by other arrays before construction are outside the claim.",
-     "text": "Bounded symbolic verification: for 7 ways of constructing a field and every history [field or source array -> up to 2 of 25 "
+     "text": "Bounded symbolic verification: for 9 ways of constructing a field (incl. zero-dimensional source arrays) and every history [field or source array -> up to 2 of 25 "
              "handle derivations (val, raw, asnumpy, views, slices, reshape, astype(copy=False), re-wrapping ...) -> one of 21 mutation "
              "attempts (item assignment, in-place operators with array and scalar operands, fill, copyto, put, ufunc out=)], "
              "the field's entries, its public accessors and makeOp/Adder/GaussianEnergy built from it are unchanged for ALL entry "
